@@ -3,6 +3,18 @@
 import json, subprocess
 ALL = ["C%02d" % i for i in range(1, 21)]
 CHECKS = {
+ "C06": dict(level="exploration", design="§4 C06",
+   technique="runtime monitoring: handshakes under generated server option combinations; open packet, registry, connection events, initial packet and heartbeat mode compared with the configuration (3-5 sessions per server)",
+   text="For each generated option combination a real server is started and 3-5 clients handshake over polling, JSONP, WebSocket and in-memory WebTransport with EIO 4, 3 or absent; the monitor checks one connection event and one registry entry per admitted handshake, the open packet's JSON against the effective options (upgrades as a set), the initial packet as first message of every session with its kind, Protocol() and heartbeat mode per revision, and refusal of revision 3 when disallowed.",
+   note="Trusts the reference decoder for the first response. WebTransport handshakes enter through server.Handshake with an in-memory stream, not through OnWebTransportSession."),
+ "C16": dict(level="exploration", design="§4 C16",
+   technique="runtime monitoring: every raw poll response (recorded by a wrapping http.Handler) decoded independently (RFC 9110 codings, strict JS string scanner for JSONP, reference payload codec) and matched to the flush events' batches by packet identity; header/body consistency rules",
+   text="Generated polling and JSONP sessions with hostile text, binary packets, per-packet compress flags, Accept-Encoding variants (incl. look-alike tokens and q-values), thresholds and arbitrary j strings; each response is checked for Content-Length, Content-Type vs body nature, decodability under its Content-Encoding as HTTP defines it, compression only when requested/above threshold/named by Accept-Encoding, exact JSONP form with digits-only index and script-safe literal, and payload equality with the batch handed to the transport.",
+   note="Trusts compress/gzip, compress/zlib, brotli, zstd decoders and refcodec. The open packet's content is not observable by packetCreate (created before the session is announced) and is matched by type."),
+ "C17": dict(level="exploration", design="§4 C17",
+   technique="runtime monitoring: response headers and initial_headers/headers events of generated session histories checked against a reference cookie rule and a reference CORS policy model",
+   text="Generated servers (cookie shapes, CORS origin policy as '*', fixed string, list, regexp, mixed list, bool; credentials; preflightContinue; success status) and session histories (handshake, polls, posts, preflights from allowed / disallowed / look-alike / absent origins); the monitor checks Set-Cookie only on the handshake response with value == session id and configured attributes, initial_headers once per session, headers once per transport response, ACAO only for allowed origins, Vary: Origin when request-dependent, credentials only when configured, preflight answered with the configured status without creating a session.",
+   note="The CORS reference model encodes only what the statement demands; exposed/allowed-headers echoing is not judged."),
  "C01": dict(level="exploration", design="§4 C01",
    technique="runtime monitoring on virtual time: recorded send/receive histories of real sessions (all four transports, upgrade mid-stream) checked by a per-sender exactly-once/prefix/kind oracle through an independent codec; gate-scheduled check-vs-flush interleaving; race detector",
    text="Hundreds to tens of thousands of generated sessions run against the real server inside a synctest bubble (real net/http, gorilla WebSocket and the WebTransport framing over in-memory connections). Every payload names its (sender, n); a conformant client actor decodes with the reference codec; the oracle demands per-sender received == sent in order, once, same bytes and kind, complete 600 virtual ms after the last Send, and that the session stayed open. A gate lane holds the upgrade's noop check after its writability test while the application sends.",
